@@ -584,3 +584,118 @@ Proof.
   - exists b. split; [reflexivity|exact Hlen].
   - rewrite Hms in *. lia.
 Qed.
+
+(* ====================== the handler's response is well-formed, hence always packs (C01) ====================== *)
+Lemma pop_opt_wf ar : Forall wf_rr ar -> Forall wf_rr (snd (pop_opt ar)) /\ length (snd (pop_opt ar)) <= length ar.
+Proof.
+  intros H. destruct (pop_opt ar) as [o ar0] eqn:E. cbn [snd].
+  destruct (pop_opt_facts wf_rr _ _ _ H E) as (H1 & H2 & H3). split; [exact H1|].
+  destruct o as [x|]; [destruct (H2 x eq_refl); lia|rewrite (H3 eq_refl); lia].
+Qed.
+
+Lemma new_opt_wf : wf_rr (new_opt udp_size []).
+Proof.
+  unfold wf_rr, new_opt. cbn. split; [exact wf_name_nil|]. repeat split; try (unfold u16, u32, udp_size, TypeOPT; cbn; lia).
+  constructor.
+Qed.
+
+Definition resp_room (r : msg) : Prop := (N.of_nat (length (m_ar r)) < 65535)%N.
+
+Lemma remove_opt_wf r : wf_msg r -> wf_msg (remove_opt r).
+Proof.
+  intros (Hh & Fq & Fa & Fn & Fr & Cq & Ca & Cn & Cr). destruct (pop_opt_wf _ Fr) as [H1 H2].
+  unfold remove_opt, wf_msg. cbn [m_hdr m_qs m_an m_ns m_ar set_ar].
+  split; [exact Hh|]. split; [exact Fq|]. split; [exact Fa|]. split; [exact Fn|]. split; [exact H1|].
+  split; [exact Cq|]. split; [exact Ca|]. split; [exact Cn|]. unfold count_ok in *. lia.
+Qed.
+
+Lemma add_opt_wf r : wf_msg r -> resp_room r -> wf_msg (add_or_replace_opt r).
+Proof.
+  intros (Hh & Fq & Fa & Fn & Fr & Cq & Ca & Cn & Cr) Hroom. destruct (pop_opt_wf _ Fr) as [H1 H2].
+  unfold add_or_replace_opt, wf_msg. cbn [m_hdr m_qs m_an m_ns m_ar set_ar].
+  split; [exact Hh|]. split; [exact Fq|]. split; [exact Fa|]. split; [exact Fn|]. split.
+  - apply Forall_app. split; [exact H1|]. constructor; [exact new_opt_wf|constructor].
+  - split; [exact Cq|]. split; [exact Ca|]. split; [exact Cn|].
+    unfold count_ok, resp_room in *. rewrite app_length. cbn [length]. lia.
+Qed.
+
+Lemma fix_header_wf m r : wf_msg m -> wf_msg r -> wf_msg (fix_header m r).
+Proof.
+  intros ((Hid & Hop & _) & _) ((_ & _ & Hrc) & Fq & Fa & Fn & Fr & Cq & Ca & Cn & Cr).
+  unfold fix_header, wf_msg, wf_header. cbn [m_hdr m_qs m_an m_ns m_ar h_id h_opcode h_rcode].
+  split; [repeat split; assumption|]. repeat split; assumption.
+Qed.
+
+Lemma empty_resp_wf q rc : wf_question q -> (rc < 16)%N -> wf_msg (empty_resp q rc).
+Proof.
+  intros Hq Hrc. unfold empty_resp, wf_msg, wf_header, count_ok, u16. cbn. repeat split; auto; try lia.
+Qed.
+
+Lemma empty_resp_m_wf m rc : wf_msg m -> (rc < 16)%N -> wf_msg (empty_resp_m m rc).
+Proof.
+  intros ((Hid & Hop & _) & Fq & _) Hrc. unfold empty_resp_m, wf_msg, wf_header, count_ok. cbn [m_hdr m_qs m_an m_ns m_ar h_id h_opcode h_rcode].
+  repeat split; auto.
+  - destruct (m_qs m) as [|q qs]; cbn; [constructor|]. inversion Fq; subst. constructor; [assumption|constructor].
+  - destruct (m_qs m); cbn; lia.
+  - cbn; lia.
+  - cbn; lia.
+  - cbn; lia.
+Qed.
+
+Definition rules_ok (rules : list rule) : Prop := Forall (fun r => (ru_reject r < 16)%N) rules.
+
+Section HandleWf.
+  Variable matches : nat -> list N -> bool.
+  Variable rules : list rule.
+  Variable ecs : bool.
+  Variable up : nat -> res (list N) -> uout.
+  Hypothesis Hrules : rules_ok rules.
+  (* upstream replies are decoded messages (C01_decode_wf) with room for one more additional record *)
+  Hypothesis up_wf : forall u w r, up u w = UReply r -> wf_msg r /\ resp_room r.
+
+  Lemma decide_reject_small name rc : decide matches rules name = AReject rc -> (rc < 16)%N.
+  Proof.
+    intros H. pose proof (decide_table matches rules name) as T. rewrite H in T.
+    destruct T as (i & r & Hs & Hr & _). apply select_first_match in Hs. destruct Hs as (Hn & _).
+    unfold rules_ok in Hrules. rewrite Forall_forall in Hrules. rewrite <- Hr. apply Hrules. eapply nth_error_In; eauto.
+  Qed.
+
+  Lemma handle_req_wf q client : wf_question q ->
+    wf_msg (fst (handle_req matches rules ecs up q client)) /\ resp_room (fst (handle_req matches rules ecs up q client)).
+  Proof.
+    intros Hq. unfold handle_req. destruct (decide matches rules (q_name q)) as [rc|u|] eqn:Ed.
+    - cbn [fst]. split; [apply empty_resp_wf; [exact Hq|eapply decide_reject_small; eauto]|unfold resp_room; cbn; lia].
+    - destruct (pack_req ecs q client) as [w| | |]; try (cbn [fst]; split; [apply empty_resp_wf; [exact Hq|unfold RCodeServFail; lia]|unfold resp_room; cbn; lia]).
+      destruct (up u (Ok w)) as [r|] eqn:Eu; cbn [fst].
+      + destruct (up_wf _ _ _ Eu) as [Hw Hr]. split; [now apply remove_opt_wf|].
+        unfold resp_room, remove_opt in *. cbn [m_ar set_ar]. destruct Hw as (_ & _ & _ & _ & Fr & _).
+        destruct (pop_opt_wf _ Fr). lia.
+      + split; [apply empty_resp_wf; [exact Hq|unfold RCodeServFail; lia]|unfold resp_room; cbn; lia].
+    - cbn [fst]. split; [apply empty_resp_wf; [exact Hq|unfold RCodeRefused; lia]|unfold resp_room; cbn; lia].
+  Qed.
+
+  (* the handler's response to a decoded query is well-formed ... *)
+  Theorem handle_wf m client : wf_msg m -> wf_msg (fst (handle matches rules ecs up m client)).
+  Proof.
+    intros Hm. destruct (unsupported m) eqn:Hu.
+    - unfold handle. rewrite Hu. cbn [fst]. apply fix_header_wf; [exact Hm|]. apply empty_resp_m_wf; [exact Hm|unfold RCodeNotImp; lia].
+    - destruct (handle_supported matches rules ecs up m client Hu) as (q & qs & Hq & ->). cbn [fst].
+      assert (wf_question q) as Wq.
+      { destruct Hm as (_ & Fq & _). rewrite Hq in Fq. now inversion Fq. }
+      destruct (handle_req_wf (lower_q q) client (lower_q_wf q Wq)) as [Hw Hr].
+      apply fix_header_wf; [exact Hm|]. destruct (has_opt m); [now apply add_opt_wf|now apply remove_opt_wf].
+  Qed.
+
+  (* ... hence it always packs: mustHaveRespB never needs its fallbacks, on any listener *)
+  Theorem handle_packs l m client : wf_msg m ->
+    let r := fst (handle matches rules ecs up m client) in
+    exists b, pack_msg (msg_len r) true (if match l with LTcp => true | _ => false end then max_size
+                                         else Nat.min (size_limit l m) max_size) r = Ok b /\
+              respond l m r = [if match l with LTcp => true | _ => false end then be16n (length b) ++ b else b].
+  Proof.
+    intros Hm r. pose proof (handle_wf m client Hm) as Hw. fold r in Hw.
+    destruct (pack_msg_total (msg_len r) true (if match l with LTcp => true | _ => false end then max_size
+                 else Nat.min (size_limit l m) max_size) r Hw (le_n _)) as [b Hb].
+    exists b. split; [exact Hb|]. unfold respond, must_have_resp. rewrite Hb. reflexivity.
+  Qed.
+End HandleWf.
